@@ -530,12 +530,16 @@ impl Symbol {
 
             // If c1’s third-to-left bit is 0, we have the two octet case.
             if c1 & 0b0010_0000 == 0 {
+                let value = u32::from(c2 & 0b0011_1111)
+                    | (u32::from(c1 & 0b0001_1111) << 6);
+                // A character that fits into one octet must not be encoded
+                // in two.
+                if value < 0x80 {
+                    return Err(bad_utf8());
+                }
                 return Ok(Some((
                     Symbol::Char(
-                        (u32::from(c2 & 0b0011_1111)
-                            | (u32::from(c1 & 0b0001_1111) << 6))
-                            .try_into()
-                            .map_err(|_| bad_utf8())?,
+                        value.try_into().map_err(|_| bad_utf8())?,
                     ),
                     pos,
                 )));
@@ -553,13 +557,16 @@ impl Symbol {
 
             // If c1’s fourth-to-left bit is 0, we have the three octet case.
             if c1 & 0b0001_0000 == 0 {
+                let value = u32::from(c3 & 0b0011_1111)
+                    | (u32::from(c2 & 0b0011_1111) << 6)
+                    | (u32::from(c1 & 0b0001_1111) << 12);
+                // No overlong encodings.
+                if value < 0x800 {
+                    return Err(bad_utf8());
+                }
                 return Ok(Some((
                     Symbol::Char(
-                        (u32::from(c3 & 0b0011_1111)
-                            | (u32::from(c2 & 0b0011_1111) << 6)
-                            | (u32::from(c1 & 0b0001_1111) << 12))
-                            .try_into()
-                            .map_err(|_| bad_utf8())?,
+                        value.try_into().map_err(|_| bad_utf8())?,
                     ),
                     pos,
                 )));
@@ -575,15 +582,16 @@ impl Symbol {
                 return Err(bad_utf8());
             }
 
+            let value = u32::from(c4 & 0b0011_1111)
+                | (u32::from(c3 & 0b0011_1111) << 6)
+                | (u32::from(c2 & 0b0011_1111) << 12)
+                | (u32::from(c1 & 0b0000_1111) << 18);
+            // No overlong encodings.
+            if value < 0x1_0000 {
+                return Err(bad_utf8());
+            }
             Ok(Some((
-                Symbol::Char(
-                    (u32::from(c4 & 0b0011_1111)
-                        | (u32::from(c3 & 0b0011_1111) << 6)
-                        | (u32::from(c2 & 0b0011_1111) << 12)
-                        | (u32::from(c1 & 0b0000_1111) << 18))
-                        .try_into()
-                        .map_err(|_| bad_utf8())?,
-                ),
+                Symbol::Char(value.try_into().map_err(|_| bad_utf8())?),
                 pos,
             )))
         }
